@@ -288,6 +288,10 @@ def b_Resize(rng, k):
     osh = [max(1, s + rng.randint(-2, 2)) for s in ish]
     if rng.random() < 0.15:
         osh = list(ish)
+    if rng.random() < 0.4:   # explicit in-range shifts: the copied window may be smaller than the output
+        ishift = [rng.randint(0, max(0, i - 1)) for i in ish]
+        oshift = [rng.randint(0, max(0, o - 1)) for o in osh] if rng.random() < 0.7 else None
+        return sp.linop.Resize(osh, ish, ishift=ishift, oshift=oshift), True
     return sp.linop.Resize(osh, ish), True
 
 
@@ -694,11 +698,25 @@ def check_linop(spec, claims=None):
         ch = captured.changed()
         if ch and not any(v["key"].endswith("mutates-captured") for v in viol):
             V("mutates-captured", "wrote into captured array(s) %s after .H/.N use" % ch, ch, "unchanged")
+        # A(0) = 0 (linearity), with recycled memory in the allocator: an output that is allocated but not
+        # completely written shows here and in the repeated-application comparison above
+        for jdt in (np.complex128, np.float64, np.complex64):
+            junk = np.full(A.oshape, 12345.678, dtype=jdt)
+            del junk
+        z0 = apply(A, np.zeros(A.ishape, dtype=dtype), "A(0)")
+        if isinstance(z0, np.ndarray) and z0.size and not np.all(z0 == 0):
+            V("nonlinear", "A(0) != 0 (output contains values that do not come from the input)", short(z0), "zeros")
         # linearity with a complex scalar
         a = complex(rng.randint(-3, 3), rng.choice([-2, -1, 1, 2, 3]))
         xa, ya = gint(rng, A.ishape, dtype), gint(rng, A.ishape, dtype)
         if spec.get("real_xy"):
             xa, ya = xa.real.astype(dtype), ya.real.astype(dtype)
+        real_dtype = spec.get("real_dtype_xy", rng.random() < 0.3)
+        if real_dtype:
+            # x and y held in REAL-dtype arrays, a complex: shortcuts taken for real input (skipped
+            # conjugations, dropped imaginary parts of complex operators) only show here
+            rdt = np.float32 if dtype == np.dtype(np.complex64) else np.float64
+            xa, ya = np.ascontiguousarray(xa.real.astype(rdt)), np.ascontiguousarray(ya.real.astype(rdt))
         comb = (a * xa + ya).astype(dtype)
         l = apply(A, comb, "A(a x + y)")
         r1, r2 = apply(A, xa, "A(x)"), apply(A, ya, "A(y)")
@@ -715,7 +733,10 @@ def check_linop(spec, claims=None):
                 # rounding <= 1.4e-7 relative on complex64 paths and <= 1.1e-15 on complex128 paths, so the
                 # tolerances are >= 1.4e3 x resp. 1e5 x above rounding (1e-5 for complex64 would leave only 70 x);
                 # the regressions this stream targets (dropped imaginary part, anti-linearity) are O(1) relative.
-                single = dtype == np.dtype(np.complex64) or l.dtype in (np.dtype(np.complex64), np.dtype(np.float32))
+                # real-dtype input: fft/nufft cast real input to complex64 by design (C05), possibly deep inside a
+                # tree whose final dtype is complex128 again, so the single-precision tolerance applies
+                single = real_dtype or dtype == np.dtype(np.complex64) or any(
+                    v.dtype in (np.dtype(np.complex64), np.dtype(np.float32)) for v in (l, r1, r2))
                 tol = (2e-4 if single else 1e-10) * scale * max(1, int(np.sqrt(lhs.size)))
                 ok = lhs.shape == rhs.shape and (lhs.size == 0 or float(np.max(np.abs(lhs - rhs))) <= tol)
             if not exact and lhs.shape == rhs.shape and lhs.size:
